@@ -183,6 +183,7 @@ Ltac leaf0 U := idtac;
                 let sv := fresh "s" in set (sv := sqrt Rd) in *;
                 field_simplify_eq; [nra|exact Hnz] ]
           end
+      | |- qnorm2 [1; 0; 0; 0] = 1 \/ _ => left; cbv [qnorm2 e List.nth]; lra
       | |- qnorm2 [?p; ?q; ?r; ?t] = 1 \/ _ =>
           is_var p; is_var q; is_var r; is_var t; left; cbv [qnorm2 e List.nth]; exact U
       | |- ?g => idtac "LEAF NOT HANDLED:" g; fail
